@@ -1420,6 +1420,95 @@ pub fn c17_into(rep: &mut Report, tier: Tier) {
         "what":"GET forwarded for an HTTP/3 client (request stream ended with the request) x origin framing {Content-Length, chunked, close-delimited} x body sizes: equivalent HTTP/1.1 request at the origin, status, end-to-end header, exactly the de-chunked body, end of the exchange"}));
 }
 
+
+/// The HTTP/3 client aborts its request stream (RESET_STREAM) in mid-upload, the destination is
+/// silent: the tunnel is torn down (destination connection ended, outbound socket released).
+pub async fn client_abort_case() -> Result<&'static str, Violation> {
+    let case = json!({"kind":"quic-client-abort"});
+    let mach = |e: String| Violation::new("C02:machinery", e, json!({}));
+    let dst = tokio::net::TcpListener::bind("127.0.0.1:0").await.map_err(|e| mach(e.to_string()))?;
+    let daddr = dst.local_addr().unwrap();
+    let ep = start(Cfg { clients: users(), allow_private: true, ..Cfg::default() }).await.map_err(mach)?;
+    let mut cl = QuicClient::new(ep.addr, &ClientOpts::default()).map_err(mach)?;
+    if !cl.handshake(Duration::from_secs(3)).await {
+        return Err(Violation::new("C02:machinery", "QUIC handshake failed", case));
+    }
+    let id = cl.request("CONNECT", &daddr.to_string(), None, &[("proxy-authorization".into(), AUTH.into())], false).map_err(mach)?;
+    let mut ds = None;
+    let t0 = std::time::Instant::now();
+    while ds.is_none() && t0.elapsed() < Duration::from_secs(3) {
+        cl.pump();
+        let mut acc = Box::pin(dst.accept());
+        if let Some(Ok((s, _))) = door::poll_once(&mut acc).await {
+            ds = Some(s);
+        }
+        drop(acc);
+        tokio::time::sleep(Duration::from_millis(2)).await;
+    }
+    let Some(mut ds) = ds else { return Err(Violation::new("C02:machinery", "destination not connected", case)) };
+    let _ = ds.set_linger(Some(Duration::ZERO));
+    let head = cl.response(id, Duration::from_secs(3), 4096, Some(0)).await;
+    if head.status != Some(200) {
+        return Err(Violation::new("C02:machinery", format!("CONNECT answered {:?}", head.status), case));
+    }
+    let up = vec![0x61u8; 3000];
+    let mut off = 0;
+    let t0 = std::time::Instant::now();
+    while off < up.len() && t0.elapsed() < Duration::from_secs(3) {
+        match cl.send_body(id, &up[off..], false) {
+            Ok(n) => off += n,
+            Err(_) => tokio::time::sleep(Duration::from_millis(1)).await,
+        }
+    }
+    let mut got = 0usize;
+    let mut tmp = [0u8; 4096];
+    let t0 = std::time::Instant::now();
+    while got < up.len() && t0.elapsed() < Duration::from_secs(3) {
+        cl.pump();
+        let n = {
+            let mut r = Box::pin(ds.read(&mut tmp));
+            door::poll_once(&mut r).await
+        };
+        match n {
+            Some(Ok(n)) if n > 0 => got += n,
+            Some(_) => break,
+            None => tokio::time::sleep(Duration::from_millis(1)).await,
+        }
+    }
+    if got < up.len() {
+        return Err(Violation::new("C02:machinery", format!("the destination received {got} of 3000 bytes"), case));
+    }
+    if trusttunnel::verif_hooks::metrics_snapshot(&ep.ctx).outbound_tcp_sockets != 1 {
+        return Err(Violation::new("C02:machinery", "outbound_tcp_sockets is not 1 on an open tunnel", case));
+    }
+    // H3_REQUEST_CANCELLED on the sending side of the request stream
+    let _ = cl.conn.stream_shutdown(id, quiche::Shutdown::Write, 0x10c);
+    let mut ended = false;
+    let t0 = std::time::Instant::now();
+    while !ended && t0.elapsed() < Duration::from_secs(3) {
+        cl.pump();
+        let n = {
+            let mut r = Box::pin(ds.read(&mut tmp));
+            door::poll_once(&mut r).await
+        };
+        match n {
+            Some(Ok(0)) | Some(Err(_)) => ended = true,
+            Some(Ok(_)) => {}
+            None => tokio::time::sleep(Duration::from_millis(2)).await,
+        }
+    }
+    cl.drive(Duration::from_millis(200), |_| false).await;
+    let gauge = trusttunnel::verif_hooks::metrics_snapshot(&ep.ctx).outbound_tcp_sockets;
+    if !ended || gauge != 0 {
+        return Err(Violation::new(
+            "C02:door:client-abort-not-a-failure:h3",
+            format!("the client reset its request stream (RESET_STREAM H3_REQUEST_CANCELLED) in mid-upload with a silent destination: destination saw its connection end = {ended}, outbound_tcp_sockets afterwards = {gauge} (the tunnel must be torn down, not left half-open)"),
+            case,
+        ));
+    }
+    Ok("torn-down")
+}
+
 pub fn c02_into(rep: &mut Report) {
     let mut cases = vec![];
     for down in [0usize, 5, 3000, 200_000] {
@@ -1441,6 +1530,11 @@ pub fn c02_into(rep: &mut Report) {
     rep.sub.push(json!({"sub":"door-endings-h3","cases":r.evaluations,"completed":r.completed,"classes":r.classes.iter().map(|(k, v)| format!("{k}={}", v.0)).collect::<Vec<_>>(),
         "what":"the same ending table as door-endings through the real UDP listener with an HTTP/3 client"}));
     rep.violations(r.violations);
+    match super::guarded(|| run_blocking(client_abort_case())) {
+        Ok(Ok(c)) => rep.sub.push(json!({"sub":"door-client-abort-h3","class":c,"what":"HTTP/3 client resets its request stream in mid-upload, silent destination: tunnel torn down"})),
+        Ok(Err(v)) => rep.violation(v),
+        Err(p) => rep.violation(Violation::new("C02:door:panic:h3", p, json!({"kind":"quic-client-abort"}))),
+    }
 }
 
 pub fn c10_into(rep: &mut Report) {
@@ -1629,6 +1723,7 @@ pub fn replay(case: &serde_json::Value) -> Option<Result<(), Violation>> {
             let f = ["cl", "chunked", "close"].into_iter().find(|x| Some(*x) == case["framing"].as_str()).unwrap_or("cl");
             run_blocking(forwarded_case(f, case["body"].as_u64().unwrap_or(40) as usize)).map(|_| ())
         }
+        "quic-client-abort" => run_blocking(client_abort_case()).map(|_| ()),
         "quic-ending" => {
             let e = if case["end"].as_str() == Some("rst") { "rst" } else { "fin" };
             let c = ["reads", "upload-then-half-close", "upload-keeps-open"].into_iter().find(|x| Some(*x) == case["client"].as_str()).unwrap_or("reads");
